@@ -33,9 +33,9 @@ def main():
         rc, out = sh("/venv/bin/python -B %s" % os.path.join(sd, "demo.py"), cwd=wt, env=env)
         res["demo_patched_rc"] = rc
         res["demo_patched_tail"] = out[-300:]
-        rc, out = sh("/venv/bin/python -B -m pytest -q -p no:cacheprovider --timeout=900 tests --ignore=tests/test_visualization.py -x -q 2>&1 | tail -3", cwd=wt, env=env)
-        res["tests_tail"] = out.strip()[-200:]
-        res["tests_pass"] = ("passed" in out and "failed" not in out and "error" not in out.lower())
+        rc, out = sh("/venv/bin/python -B -m pytest -q -p no:cacheprovider --timeout=900 tests --ignore=tests/test_visualization.py -q", cwd=wt, env=env)
+        res["tests_tail"] = out.strip()[-120:]
+        res["tests_pass"] = (rc == 0)
         t0 = time.time()
         rc, out = sh("./check %s --tier quick" % prop, cwd=VERIF, env={"VERIF_REPO": wt})
         res["check_rc"] = rc
@@ -48,6 +48,17 @@ def main():
         if "--keep" not in sys.argv:
             sh("git -C /repo worktree remove --force %s" % wt)
     print(json.dumps(res, indent=1))
+    if "--save" in sys.argv and res.get("valid_seed"):
+        name = os.path.basename(sd.rstrip("/"))
+        dst = os.path.join(VERIF, "seeded", name)
+        os.makedirs(dst, exist_ok=True)
+        for f in ("patch.diff", "demo.py"):
+            shutil.copy(os.path.join(sd, f), os.path.join(dst, f))
+        meta.update({"breaks_property": prop, "confirmed": {"demo_passes_on_pristine_tree": True, "demo_fails_with_patch": True, "existing_test_suite_passes_with_patch": True},
+                     "check_result": {"command": "VERIF_REPO=<scratch worktree with patch> ./check %s --tier quick" % prop, "detected": res["detected"],
+                                      "with_failing_input": res["with_input"], "wall_s": res["check_wall"], "tail": res["check_tail"]}})
+        json.dump(meta, open(os.path.join(dst, "meta.json"), "w"), indent=1)
+        print("saved to", dst)
     return 0
 
 
